@@ -386,12 +386,12 @@ where
     D: Dimension,
 {
     pub fn new(data: ArrayBase<Sd, D>) -> Self {
-        let x = Array1::from_iter((0..data.shape()[0]).map(|i| {
+        let x = Array1::from_iter((0..data.shape().first().copied().unwrap_or(0)).map(|i| {
             cast(i).unwrap_or_else(|| {
                 unimplemented!("casting from usize to a number should always work")
             })
         }));
-        let y = Array1::from_iter((0..data.shape()[1]).map(|i| {
+        let y = Array1::from_iter((0..data.shape().get(1).copied().unwrap_or(0)).map(|i| {
             cast(i).unwrap_or_else(|| {
                 unimplemented!("casting from usize to a number should always work")
             })
